@@ -5,7 +5,7 @@
    Quantification as in C04.v: every configuration, every event history of models/Cache.v.
    [c_expire cfg e] is E: normalExpire for e = 0 (nil error), errorExpire otherwise.
    [c_cfg_ok cfg] = 0 < errorExpire <= normalExpire (asserted by cachex.WithExpire). *)
-From Got Require Import Base Cache CacheProofs.
+From Got Require Import Base Cache CacheProofs CacheStatus64 CacheStatus64Proofs.
 Local Open Scope Z_scope.
 
 (* now-u < E: Load returns the result's future, creates no job, changes nothing; Get2 awaits
@@ -118,3 +118,48 @@ Example c05_nonvacuous :
   c05_probe 9 799  = [OAwait 0; OLoad 0 true;  OLoad 0 false; OAwait 0; ONone; OAwait 0] /\
   c05_probe 9 800  = [OImmediate; OLoad 1 true; OLoad 1 false; OAwait 1; ONone; OAwait 1].
 Proof. split; [unfold c_cfg_ok; cbn; lia|]. vm_compute. repeat split. Qed.
+
+(* ---- the int64 arithmetic of getFutureStatus (models/CacheStatus64.v; D12, fix 41fab85).
+   Cache.v classifies over unbounded Z; the code computes on time.Duration = int64. With the fix
+   (past-expire < expire) the code's classification IS Cache.v's on the whole range of int64
+   durations, so the theorems above lose nothing to wrap-around. *)
+Theorem cache_status_is_int64_exact :
+  forall cfg now x v e u,
+  c_fdone x = Some (v, e, u) ->
+  0 <= now - u < 2 ^ 63 -> 0 < c_expire cfg e < 2 ^ 63 ->
+  c_status_fut cfg now x = cst_code CstFixed (now - u) (c_expire cfg e).
+Proof. exact cst_cache_status_is_code. Qed.
+Print Assumptions cache_status_is_int64_exact.
+
+(* the pinned comparison (past < 2*expire) was exact only while 2*expire fits an int64 ... *)
+Theorem cache_status_orig_exact_below_2_62 :
+  forall past expire, 0 <= past < 2 ^ 63 -> 0 < expire < 2 ^ 62 ->
+  cst_code CstOrig past expire = cst_ideal past expire.
+Proof. exact cst_orig_exact_below. Qed.
+Print Assumptions cache_status_orig_exact_below_2_62.
+
+(* ... and for every expiry from 2^62 ns up it had no stale window at all: at every age in [E, 2^63)
+   it answered "rotted" where the property says "stale, still served" *)
+Theorem cache_status_orig_no_stale_window :
+  forall past expire, 2 ^ 62 <= expire < 2 ^ 63 -> expire <= past < 2 ^ 63 ->
+  cst_code CstOrig past expire = CRotted /\ cst_ideal past expire = CExpired.
+Proof. exact cst_orig_no_stale_window. Qed.
+Print Assumptions cache_status_orig_no_stale_window.
+
+(* concrete witness with an expiry NewCache accepts (E = 2^62+2^60 ns, age E+16 ns); replayed on the
+   real code under faketime (corpus/C05, stream expiry-beyond-2^62) *)
+Theorem cache_status_orig_overflow_refuted :
+  exists past expire, 0 <= past < 2 ^ 63 /\ 0 < expire < 2 ^ 63 /\
+    cst_newcache_starts expire = true /\
+    cst_code CstOrig past expire = CRotted /\ cst_ideal past expire = CExpired /\
+    cst_code CstFixed past expire = CExpired.
+Proof. exact cst_orig_refuted. Qed.
+Print Assumptions cache_status_orig_overflow_refuted.
+
+(* which normalExpire values NewCache accepts at all: time.NewTicker(4*E) panics unless the wrapped
+   product is positive *)
+Theorem cache_newcache_accepted_expiries :
+  forall e, 0 < e < 2 ^ 63 ->
+  cst_newcache_starts e = true <-> (e < 2 ^ 61 \/ 2 ^ 62 < e < 2 ^ 62 + 2 ^ 61).
+Proof. exact cst_newcache_starts_spec. Qed.
+Print Assumptions cache_newcache_accepted_expiries.
